@@ -276,7 +276,10 @@ class Catalog(Obj):
 
     def m_get(self, ex, st, args, kwargs, node):
         uid = box(ex, args[0])
-        s1 = st.fork().assume(z3.Select(self.get(st, 'present'), uid))
+        n0 = z3.Select(self.get(st, 'n'), uid)
+        # catalog invariant (established by _enqueue: n = 0; preserved by the obligation at the back edge of _dequeue's item loop): a present entry still waits for answers
+        s1 = st.fork().assume(z3.Select(self.get(st, 'present'), uid), n0 >= 0, n0 < ex.unit.nn)
+        s1.ghost['n_at_get'] = n0
         s2 = st.fork().assume(z3.Not(z3.Select(self.get(st, 'present'), uid)))
         return [x for x in (('ok', s1, Entry(ex, self, uid)), ('ok', s2, NONE)) if ex.feasible(x[1])]
 
@@ -381,7 +384,9 @@ class EnsembleDequeue(Unit):
     canaries = (('result stored in the neighbouring slot', "z['y'][idx] = y", "z['y'][idx - 1] = y", 'own slot'),
                 ('entry not removed when answered', "                    elif z['n'] == nn:\n                        # All results", "                    elif z['n'] >= 1:\n                        # All results", ''),
                 ('partial failure reported as total failure', "if all(isinstance(v, RemoteException) for v in z['y']):", "if isinstance(y, RemoteException):", ''),
-                ('answer under another uid', 'qout.put((uid, y))', 'qout.put((idx, y))', 'own uid'))
+                ('answer under another uid', 'qout.put((uid, y))', 'qout.put((idx, y))', 'own uid'),
+                ('failed members not counted: the request is never answered', "                    z['n'] += 1", "                    if not isinstance(y, RemoteException):\n                        z['n'] += 1", 'raises its count'),
+                ('complete entry kept', "                    elif z['n'] == nn:\n                        # All results", "                    elif z['n'] == nn + 1:\n                        # All results", 'stays in the catalog only while'))
 
     def setup(self, ex):
         st = St()
@@ -399,6 +404,7 @@ class EnsembleDequeue(Unit):
         st.ghost['popped'] = ()
         st.ghost['puts'] = ()
         st.ghost['slot_writes'] = ()
+        st.ghost['n_at_get'] = None
         ex.globals['RemoteException'] = ExcClass('RemoteException')
         self.mk_remote = mk_remote(ex)
         return st
@@ -476,6 +482,7 @@ class EnsembleDequeue(Unit):
             h.ghost['popped'] = ()
             h.ghost['puts'] = ()
             h.ghost['slot_writes'] = ()
+            h.ghost['n_at_get'] = None
 
         def back_inner(s, ex):
             cur = s.ghost['cur']
@@ -487,6 +494,13 @@ class EnsembleDequeue(Unit):
             puts, sw, popped = s.ghost['puts'], s.ghost['slot_writes'], s.ghost['popped']
             ex.oblige(s, 'iteration: one item taken -> at most one slot write (own slot), at most one answer, and an answer only together with the removal of the entry',
                       z3.BoolVal(len(sw) <= 1 and len(puts) <= 1 and len(popped) == len(puts) and (len(puts) == 0 or len(sw) == 1)))
+            if len(sw) == 1 and s.ghost.get('n_at_get') is not None:
+                n_now, present_now = z3.Select(self.cat.get(s, 'n'), uid), z3.Select(self.cat.get(s, 'present'), uid)
+                this = z3.Select(z3.Select(self.cat.get(s, 'slots'), uid), mi)
+                ex.oblige(s, 'iteration: [C04/C06] every answer stored in a live entry -- a failure included -- raises its count by exactly one', n_now == s.ghost['n_at_get'] + 1)
+                ex.oblige(s, 'iteration: [C04/C06] the entry stays in the catalog only while answers are outstanding (count < #members) and, with fail_fast, the stored value is not a failure: '
+                             'otherwise the request has been answered (so every request is answered once its last member has answered)',
+                          z3.Implies(present_now, z3.And(n_now < self.nn, z3.Not(z3.And(self.ff, V.isinst(this, 'RemoteException'))))))
         t = LoopSpec(inv=lambda s, ex: z3.BoolVal(True))
         sp_for = LoopSpec(inv=lambda s, ex: z3.BoolVal(True))
         sp_in = LoopSpec(inv=lambda s, ex: z3.BoolVal(True), at_head=head_inner)
